@@ -363,7 +363,12 @@ func c15LongRun(c *Ctx, n int, poison bool) {
 		x.w.SendUDP(obs.Pkts[0].To, c15Lst, ResponseTo(rel, 200, fmt.Sprintf("t%d", d)).Render())
 		x.w.Observe()
 		x.traffic = append(x.traffic, x.now())
-		x.w.S.W.Advance(10e6)
+		// the whole population is pinned within 0.6 T: it also expires within one period
+		step := int64(10e6)
+		if int64(n)*step > T*6/10 {
+			step = T * 6 / 10 / int64(n)
+		}
+		x.w.S.W.Advance(step)
 		c.Res.Executions++
 	}
 	tb := x.w.S.Proxies()[0].dialogBasedBackends
@@ -521,6 +526,14 @@ func c15Run(c *Ctx) {
 	if c.Worker == 1%c.NWorkers {
 		c15LongRun(c, 200, true)
 	}
+	if c.Worker == 4%c.NWorkers {
+		// a population larger than any plausible batch limit of a purge
+		n := 6000
+		if c.Thorough() {
+			n = 30000
+		}
+		c15LongRun(c, n, false)
+	}
 	if c.Worker == 2%c.NWorkers {
 		c15LongRepin(c, 200)
 	}
@@ -532,7 +545,7 @@ func c15Run(c *Ctx) {
 
 func init() {
 	addCheck(&Check{ID: "C15", Level: "model_checking", Collapse: true,
-		Rule:   "explicit-state BFS by replay on the VIRTUAL clock (dialogTimeout 10 s through YAML, through DEFAULT_DIALOG_TIMEOUT and through the real main()): events {establishing 200 with Expires none/5/30/2147483647 (repeatable), probe = 4 consecutive in-dialog requests, BYE answered 200/481/603(/503/302), NOTIFY active/terminated/terminated;reason (don't-care), clock steps 1/5/6/9.998/11/31 s, unrelated request with Expires none/2147483647}, one dialog to depth 5 (thorough 6), two dialogs to depth 4 (5); oracle: pinned before min(t_i+max(T,Expires_i)), load-balanced after max(...) or after termination, don't-care in between and within 1 ms of an expiry; table invariant after every traffic event: no entry expired for more than 2T while traffic flowed with gaps <= T/2; plus two long runs pinning 200 dialogs (one poisoned by a huge Expires) followed by 35 s of traffic ticks, and two long runs (200 and 1000 dialogs) whose population expires together and is partly re-established while the purge is under way; non-trivial = history longer than two events",
+		Rule:   "explicit-state BFS by replay on the VIRTUAL clock (dialogTimeout 10 s through YAML, through DEFAULT_DIALOG_TIMEOUT and through the real main()): events {establishing 200 with Expires none/5/30/2147483647 (repeatable), probe = 4 consecutive in-dialog requests, BYE answered 200/481/603(/503/302), NOTIFY active/terminated/terminated;reason (don't-care), clock steps 1/5/6/9.998/11/31 s, unrelated request with Expires none/2147483647}, one dialog to depth 5 (thorough 6), two dialogs to depth 4 (5); oracle: pinned before min(t_i+max(T,Expires_i)), load-balanced after max(...) or after termination, don't-care in between and within 1 ms of an expiry; table invariant after every traffic event: no entry expired for more than 2T while traffic flowed with gaps <= T/2; plus long runs pinning 200 dialogs (one poisoned by a huge Expires) and 6000 (thorough 30000) dialogs followed by 35 s of traffic ticks, and two long runs (200 and 1000 dialogs) whose population expires together and is partly re-established while the purge is under way; non-trivial = history longer than two events",
 		Assume: []string{"real-time expiry on the real binary is not replayed: a wall-clock oracle at the scale of seconds alarms falsely under load (DESIGN.md §2.8)", "consecutive clock steps are explored in non-decreasing order only (they commute)"},
 		Run:    c15Run,
 		Replay: func(c *Ctx, raw json.RawMessage) string {
@@ -551,7 +564,9 @@ func init() {
 			}
 			if strings.HasPrefix(cs.Mode, "long") {
 				cc := &Ctx{ID: "C15x", Res: newResult(), vmap: map[string]*Violation{}, Deadline: c.Deadline, NWorkers: 1}
-				c15LongRun(cc, 200, strings.HasSuffix(cs.Mode, "true"))
+				n := 200
+				fmt.Sscanf(cs.Mode, "long:%d:", &n)
+				c15LongRun(cc, n, strings.HasSuffix(cs.Mode, "true"))
 				if len(cc.Res.Violations) > 0 {
 					return cc.Res.Violations[0].Clause
 				}
